@@ -7,25 +7,25 @@ for d in sorted(os.listdir('/verif/seeded')):
     m = json.load(open(f'/verif/seeded/{d}/meta.json'))
     prop = m['breaks_property']
     own = [r for r in m['detection_runs'] if r['check'] == prop and r['tier'] == 'quick']
-    others = [r for r in m['detection_runs'] if r['check'] != prop and r['detected']]
+    others = [r for r in m['detection_runs'] if r['detected'] and (r['check'] != prop or r['tier'] != 'quick')]
     if own and own[-1]['detected']:
         o = f"yes (`{own[-1]['first_signature']}`)"
     elif own:
         o = "no"
     else:
         o = "not run"
-    oth = ', '.join(f"{r['check']} (`{r['first_signature']}`)" for r in others)
+    oth = ', '.join(f"{r['check']}{' thorough' if r['tier'] != 'quick' else ''} (`{r['first_signature']}`)" for r in others)
     if m.get('control'):
         o = "silent (as it must be)" if own and not own[-1]['detected'] else "FALSE ALARM"
         controls.append(d)
     rows.append((d, prop, m['change'], m['needs_to_manifest'], o, oth))
-out = ["| seeded change | breaks | what it changes | caught by its own property's quick check | also caught by (quick) |", "|---|---|---|---|---|"]
+out = ["| seeded change | breaks | what it changes | caught by its own property's quick check | also caught by (quick unless marked thorough) |", "|---|---|---|---|---|"]
 for d, prop, ch, need, o, oth in rows:
     out.append(f"| `{d}` | {prop} | {ch}; needs: {need} | {o} | {oth} |")
 real = [r for r in rows if r[0] not in controls]
 n_own = sum(1 for r in real if r[4].startswith('yes'))
 n_any = sum(1 for r in real if r[4].startswith('yes') or r[5])
-summary = f"{len(real)} seeded changes (+{len(controls)} neutral control); {n_own} caught by the quick check of the property they were written against, {n_any} caught by at least one quick check."
+summary = f"{len(real)} seeded changes (+{len(controls)} neutral control); {n_own} caught by the quick check of the property they were written against, {n_any} caught by at least one check (quick, or thorough where marked)."
 text = summary + "\n\n" + "\n".join(out)
 p = '/verif/DESIGN.md'
 s = open(p).read()
